@@ -1875,8 +1875,8 @@ def replay(ctx, path):
 def run(ctx):
     quick = ctx.tier == "quick"
     n_exp = 700 if quick else 8000
-    n_bare = 620 if quick else 14000
-    n_sweep = 18 if quick else 250
+    n_bare = 620 if quick else 12000
+    n_sweep = 18 if quick else 200
     n_carrier = 150 if quick else 1900
     n_read = 500 if quick else 6000
     n_direct = 120 if quick else 1400
